@@ -48,6 +48,7 @@ if __name__ == "__main__":
          ("F-C03-13", "npm: `<0.0.0` and `<0.0.0-pre` are the empty set for deps.dev (the all-zero test of tokLess ignores the prerelease tag and the prereleases below 0.0.0): `<0.0.0-0a.2` rejects 0.0.0-0, and `<=0.0.0-a.2 <0.0.0` rejects 0.0.0-0 which node accepts", cm(4, b"<0.0.0-0a.2", [b"0.0.0-0"]), None),
          ("F-C03-14", "npm: an upper bound that comes from an x-range, caret, tilde or partial hyphen bound is `<M.m.p-0` for node (no prerelease of M.m.p passes) but `<M.m.p` (or an ∞ component) for deps.dev, so a prerelease of the bound passes when another comparator carries a tag: `<3.0.0-1.1.10 <3.*` matches 3.0.0-0", cm(4, b"<3.0.0-1.1.10 <3.*", [b"3.0.0-0", b"2.0.0"]), None),
          ("F-C03-16", "Maven: a restriction without a lower bound gets the version 0 as its lower bound; when the upper bound sorts below 0 (0-alpha-1, 0.0-milestone-1, 0-SNAPSHOT) newSpan fails and the WHOLE requirement is rejected, although Maven accepts it: `(,0-alpha-1],[1,2]` is rejected, Maven matches 1.5", cm(3, b"(,0-alpha-1],[1,2]", [b"1.5", b"0"]), None),
+         ("F-C03-17", "npm, Cargo: `<V` and `<=V` get the lower bound 0.0.0-0 from MinVersion, whose hidden isPrerelease flag is false; intersected with a later comparator whose lower bound is the user-written 0.0.0-0 the bounds compare equal, Intersect keeps the receiver's, and no prerelease of 0.0.0 is admitted any more (the defect of F-C09-4 seen from requirements; the answer depends on the order of the comparators): npm `<=0.0.0 ^0.0.0-0` rejects 0.0.0-alpha and 0.0.0-0, `^0.0.0-0 <=0.0.0` accepts them, as node does; Cargo `<=0.9.0-rc.0, >=0.0.0-0` likewise", cm(4, b"<=0.0.0 ^0.0.0-0", [b"0.0.0-alpha", b"0.0.0-0", b"0.0.0"]), None),
         ]
         for (fid, what, (kind, arg), thm) in E:
             print(entry(fid, "C03", what, kind, arg, thm))
